@@ -78,6 +78,7 @@ def gen(rng, tier):
     yield from _gen_main(rng, tier)
     yield from _grid(rng, tier)
     yield from _huge(rng, tier)
+    yield from _exh8(rng, tier)
 
 
 def _grid(rng, tier):
@@ -104,3 +105,14 @@ def _huge(rng, tier):
                 yield f"{op} {s}{cfg} {hx(a)} {hx(b)}", "huge"
         yield f"widening_mul u{cfg} {hx(vals[0])} {hx(vals[1])}", "huge"
         yield f"carrying_mul u{cfg} {hx(vals[1])} {hx(vals[0])} {hx(vals[0])}", "huge"
+
+
+def _exh8(rng, tier):
+    """complete enumeration of the 8-bit instantiation (a test of the u8 digit primitives through N = 1)"""
+    if tier == "thorough":
+        return
+    for s in "ui":
+        for op in ['overflowing_mul']:
+            for a in range(256):
+                for b in range(256):
+                    yield f"{op} {s}8x1 {hx(a)} {hx(b)}", "exhaustive8"
